@@ -128,6 +128,11 @@ func toMapData(data any) map[string]any {
 		}
 		return out
 	}
+	// Any other map with string keys (map[string]string, a named map type, a pointer to a map)
+	// provides its keys as variables in the same way
+	if m, ok := reflect.StringKeyedMap(data); ok {
+		return m
+	}
 	// Try to convert struct to map using JSON tags
 	if m := reflect.StructToMap(data); len(m) > 0 {
 		return m
